@@ -704,4 +704,176 @@ theorem elemRead_not_missing (env : Env F) (hm : env.cfg.aggrReportsMissingEleme
     · simp at hmiss
       exact hmiss
 
+/-! ### the element's part, mid-stream: INTEGER -/
+
+/-- `CheckRemainingInput` hands the severity back unchanged or makes it WARNING or worse -/
+theorem cri_sev (cfg : LexCfg) (ds : Option (List Byte)) (s : IStream) (e : Sev) :
+    (checkRemainingInput cfg ds s e).2 = e ∨ (checkRemainingInput cfg ds s e).2.toInt ≤ 0 := by
+  have hw : (e.greater Sev.warning).toInt ≤ 0 := greater_toInt_le' e Sev.warning
+  have hi : (e.greater Sev.inputError).toInt ≤ 0 := by
+    have := greater_toInt_le' e Sev.inputError
+    have h1 : Sev.inputError.toInt = -1 := rfl
+    omega
+  unfold checkRemainingInput
+  simp only []
+  repeat' split
+  all_goals first
+    | exact Or.inl rfl
+    | exact Or.inr hw
+    | exact Or.inr hi
+
+/-- `ReadInteger` standing anywhere in a stream, in front of a non-blank character (a configuration in which it reports a
+    failed extraction): when nothing is reported, what it took is a token of the `integer` grammar in `long` range, then
+    separators; the value is the token's, and the stream rests at its end or in front of a delimiter -/
+theorem readInteger_sound (cfg : LexCfg) (hcfg : cfg.intReportsFail = true) (l : List Byte) (c : Byte) (t : List Byte) (sk : Bool)
+    (hc : isSpace c = false) (hne : NoErr (readInteger cfg (some attrDelims) (G l (c :: t) sk) .null).2.2) :
+    ∃ tok sp2, c :: t = tok ++ sp2 ++ (readInteger cfg (some attrDelims) (G l (c :: t) sk) .null).2.1.right ∧
+      (readInteger cfg (some attrDelims) (G l (c :: t) sk) .null).2.1.left = (tok ++ sp2).reverse ++ l ∧
+      Between cfg sp2 ∧ isInteger tok = true ∧ longMin ≤ denoteInteger tok ∧ denoteInteger tok ≤ longMax ∧
+      (readInteger cfg (some attrDelims) (G l (c :: t) sk) .null).1 = some (denoteInteger tok) ∧
+      AtDelimOrEnd cfg (readInteger cfg (some attrDelims) (G l (c :: t) sk) .null).2.1.right := by
+  obtain ⟨tok, rest, hr, hrest, hs2, hval, _⟩ := scanInt_split longMin longMax (by decide) (by decide) l (c :: t)
+  simp only [readInteger, ws_good0 _ _ _ _ hc, extractLong_G _ _ _ _ hc] at hne ⊢
+  generalize hsc : scanInt longMin longMax l (c :: t) = sc at hne hs2 hval ⊢
+  obtain ⟨res, l', r'⟩ := sc
+  simp only [Prod.mk.injEq] at hs2
+  obtain ⟨rfl, rfl⟩ := hs2
+  simp only [Bool.false_eq_true, IStream.failed, Bool.or_false, Bool.not_false, Bool.and_true, hcfg, Sev.warnIf] at hne ⊢
+  cases hf : res.fail with
+  | true =>
+    exfalso
+    simp only [hf, if_true] at hne
+    rcases cri_mono cfg _ (Sev.null.greater Sev.warning) with he | he
+    · rw [he] at hne; exact greater_warning_err _ hne
+    · exact he hne
+  | false =>
+    simp only [hf, Bool.false_eq_true, if_false, Bool.not_false, if_true] at hne ⊢
+    obtain ⟨htok, hv, hlo, hhi⟩ := hval hf
+    have hch := (cri_char cfg { left := tok.reverse ++ l, right := r', eof := r'.isEmpty, fail := false, bad := false, skipws := sk }
+      Sev.null rfl).2 hne
+    generalize checkRemainingInput cfg (some attrDelims)
+      { left := tok.reverse ++ l, right := r', eof := r'.isEmpty, fail := false, bad := false, skipws := sk } Sev.null = X at hne hch ⊢
+    rcases hch with ⟨heof, hsame⟩ | ⟨heof, sp2, hs2, hrr, hll, hat⟩
+    · simp only at heof
+      have hre : r' = [] := by simpa using heof
+      subst hre
+      refine ⟨tok, [], ?_, ?_, Between.nil cfg, htok, hlo, hhi, by rw [hv], ?_⟩
+      · rw [hsame]; simp [hr]
+      · rw [hsame]; simp
+      · rw [hsame]; exact Or.inl rfl
+    · simp only at hrr hll
+      refine ⟨tok, sp2, ?_, ?_, hs2, htok, hlo, hhi, by rw [hv], hat⟩
+      · rw [hr, hrr]; simp
+      · rw [hll]; simp
+
+/-- an INTEGER element standing anywhere in a stream (the element reader behind the token separators and the "missing
+    element" test, started at a non-blank character): when it reports nothing worse than INCOMPLETE — as every element of
+    a `LoopRun` does — then what it took is a token of the `integer` grammar in `long` range followed by separators, the
+    stored value is the token's (`intValue`: LONG_MAX is the in-band null), and the stream rests at its end or in front of
+    a delimiter.  No error from the loop ⇒ every INTEGER element is a grammar token with its value. -/
+theorem elemCore_integer_sound (env : Env F) (hcfg : env.lex.intReportsFail = true) (l : List Byte) (c : Byte) (t : List Byte)
+    (sk : Bool) (hc : isSpace c = false) (e2 : Sev) (v : Elem F) (s2 : IStream)
+    (h : elemReadCore env .integer (G l (c :: t) sk) = .ok (e2, v, s2)) (hne : ¬ e2.toInt < Sev.incomplete.toInt) :
+    e2 = .null ∧ ∃ tok sp2 sp3, c :: t = tok ++ sp2 ++ sp3 ++ s2.right ∧ Between env.lex sp2 ∧ Between env.lex sp3 ∧
+      isInteger tok = true ∧ longMin ≤ denoteInteger tok ∧ denoteInteger tok ≤ longMax ∧
+      v = .atom (valueToAtom (intValue (some (denoteInteger tok)) : Value F)) ∧ AtDelimOrEnd env.lex s2.right := by
+  have h1 : Sev.incomplete.toInt = 1 := rfl
+  unfold elemReadCore at h
+  simp only [scalarNodeRead_integer, bind, Except.bind, pure, Except.pure, Except.ok.injEq, Prod.mk.injEq] at h
+  obtain ⟨he2, hv, hs2⟩ := h
+  -- the severity `ReadInteger` returns is NULL or WARNING-or-worse
+  have hstart : (readInteger env.lex (some attrDelims) (G l (c :: t) sk) .null).2.2 = .null ∨
+      (readInteger env.lex (some attrDelims) (G l (c :: t) sk) .null).2.2.toInt ≤ 0 := by
+    simp only [readInteger]
+    rcases cri_sev env.lex (some attrDelims) _ _ with hx | hx
+    · rw [hx]
+      simp only [Sev.warnIf]
+      split
+      · right; exact greater_toInt_le' _ _
+      · left; rfl
+    · exact Or.inr hx
+  generalize hR : readInteger env.lex (some attrDelims) (G l (c :: t) sk) .null = R at he2 hv hs2 hstart
+  obtain ⟨o, s1, e⟩ := R
+  simp only at he2 hv hs2 hstart
+  have hsec := cri_sev env.lex (some attrDelims) s1 e
+  rw [he2] at hsec
+  have he : e = .null := by
+    rcases hsec with hx | hx
+    · rcases hstart with hy | hy
+      · exact hy
+      · rw [hx] at hne; omega
+    · omega
+  subst he
+  have hsnd := readInteger_sound env.lex hcfg l c t sk hc (by rw [hR]; exact Or.inl rfl)
+  rw [hR] at hsnd
+  obtain ⟨tok, sp2, hsplit, _, hb2, htok, hlo, hhi, ho, hat⟩ := hsnd
+  simp only at hsplit ho hat
+  have he2' : e2 = .null := by
+    rcases hsec with hx | hx
+    · exact hx
+    · omega
+  refine ⟨he2', ?_⟩
+  subst ho
+  -- the loop's own `CheckRemainingInput` on the stream `ReadInteger` left behind
+  by_cases heof : s1.eof = true
+  · have hsame : checkRemainingInput env.lex (some attrDelims) s1 Sev.null = (s1, Sev.null) := by
+      simp [checkRemainingInput, heof]
+    rw [hsame] at hs2
+    simp only at hs2
+    subst hs2
+    exact ⟨tok, sp2, [], by simpa using hsplit, hb2, Between.nil _, htok, hlo, hhi, hv.symm, hat⟩
+  · by_cases hbad : s1.bad = true
+    · exfalso
+      have : (checkRemainingInput env.lex (some attrDelims) s1 Sev.null).2 = Sev.null.greater .inputError := by
+        simp [checkRemainingInput, heof, hbad]
+      rw [he2, he2'] at this
+      revert this; decide
+    · have hb' : s1.bad = false := by simpa using hbad
+      have hne2 : NoErr (checkRemainingInput env.lex (some attrDelims) s1 Sev.null).2 := by rw [he2, he2']; exact Or.inl rfl
+      rcases (cri_char env.lex s1 Sev.null hb').2 hne2 with ⟨hx, _⟩ | ⟨_, sp3, hb3, hrr, _, hat3⟩
+      · exact absurd hx heof
+      · rw [hs2] at hrr hat3
+        refine ⟨tok, sp2, sp3, ?_, hb2, hb3, htok, hlo, hhi, hv.symm, hat3⟩
+        rw [hsplit, hrr]; simp
+
+/-- the same for the whole element round of the loop (`elemRead`: token separators, "missing element" test, the reader, the
+    loop's `CheckRemainingInput`), given that the token-separator skip leaves a stream without pending flags in front of a
+    non-blank character -/
+theorem elemRead_integer_sound (env : Env F) (hcfg : env.lex.intReportsFail = true) (s : IStream)
+    (l : List Byte) (c : Byte) (t : List Byte) (sk : Bool)
+    (hsA : (if env.cfg.aggrSkipsComments then readTokenSeparator s else s) = G l (c :: t) sk) (hc : isSpace c = false)
+    (e : Sev) (v : Elem F) (s1 : IStream)
+    (h : elemRead env .integer s = .ok (e, v, s1)) (hne : ¬ e.toInt < Sev.incomplete.toInt) :
+    e = .null ∧ ∃ tok sp2 sp3, c :: t = tok ++ sp2 ++ sp3 ++ s1.right ∧ Between env.lex sp2 ∧ Between env.lex sp3 ∧
+      isInteger tok = true ∧ longMin ≤ denoteInteger tok ∧ denoteInteger tok ≤ longMax ∧
+      v = .atom (valueToAtom (intValue (some (denoteInteger tok)) : Value F)) ∧ AtDelimOrEnd env.lex s1.right := by
+  have h1 : Sev.incomplete.toInt = 1 := rfl
+  unfold elemRead at h
+  rw [hsA] at h
+  have hms : (elemMissing env.cfg (G l (c :: t) sk)).2 = G l (c :: t) sk := by
+    unfold elemMissing
+    split
+    · rw [show (G l (c :: t) sk).peekC = (c, G l (c :: t) sk) from peekC_good l c t sk]
+    · rfl
+  simp only [bind, Except.bind, pure, Except.pure, hms] at h
+  cases hcore : elemReadCore env .integer (G l (c :: t) sk) with
+  | error x => rw [hcore] at h; cases h
+  | ok r =>
+    obtain ⟨e', v', s1'⟩ := r
+    rw [hcore] at h
+    simp only [Except.ok.injEq, Prod.mk.injEq] at h
+    obtain ⟨he, hv, hs⟩ := h
+    subst hv hs
+    by_cases hm : (elemMissing env.cfg (G l (c :: t) sk)).1 = true
+    · exfalso
+      rw [hm] at he
+      simp only [if_true] at he
+      have := greater_toInt_le' e' Sev.warning
+      rw [he] at this
+      have h0 : Sev.warning.toInt = 0 := rfl
+      omega
+    · simp only [hm, Bool.false_eq_true, if_false] at he
+      subst he
+      exact elemCore_integer_sound env hcfg l c t sk hc e' v' s1' hcore hne
+
 end StepModel.P21.AggrLemmas
